@@ -8,7 +8,8 @@ mkdir -p /var/tmp/tryout
 for k in "$@"; do
   SD=$WT/_seed/$k
   [ -f "$SD/patch.diff" ] || { echo "no seed $SD"; continue; }
-  L=$(bash $V/tools/verify_seed.sh "$WT" "$SD" 2>&1 | grep "^SEED")
+  # a cached verdict (written by a parallel pre-verification pass: `verify_seed.sh ... > $SD/verify.txt`) is reused
+  if [ -s "$SD/verify.txt" ]; then L=$(grep "^SEED" "$SD/verify.txt"); else L=$(bash $V/tools/verify_seed.sh "$WT" "$SD" 2>&1 | grep "^SEED"); fi
   echo "$L"
   case "$L" in
     *"build_errors=0"*"100% tests passed"*"demo_rc_without=0"*) ;;
